@@ -71,7 +71,11 @@ def runCol (j : Json) : Except String Json := do
   match kind with
   | "categorical" =>
     let cats ← getCats j
-    pure <| outE (fun d => Json.mkObj [("data", ints d)]) (categoricalImport cats chunks [])
+    -- the importer with fix NC06d; under `asfound` the as-found variant of the model (NC06d: 0 stored for a cell that is no
+    -- category), which the harness accepts only while the finding is listed open
+    let fixed := outE (fun d => Json.mkObj [("data", ints d)]) (categoricalImportChecked cats chunks [])
+    let asFound := outE (fun d => Json.mkObj [("data", ints d)]) (categoricalImport cats chunks [])
+    pure <| fixed.setObjVal! "asfound" asFound
   | "leaky" =>
     let cats ← getCats j
     pure <| outE (fun (s : LeakyState) => Json.mkObj [("data", ints s.data), ("ft_indices", nats s.ftIndices),
